@@ -82,6 +82,8 @@ def run_case(ctx, case):
     kinds = []
     n_ok = 0
     date = None
+    two_digit_year = any(n in names for n in ("YY", "0Y", "GG", "0G"))
+    domain_left = False
     try:
         git(d, "init", "-q", "-b", "main")
         git(d, "add", "-A")
@@ -168,7 +170,13 @@ def run_case(ctx, case):
                                   f"{harness.diff_snapshots(before, after)}", case=case, observed=hist(kinds, proj))
                     return
                 continue
+            if two_digit_year and date.year >= 2097:
+                ctx.count("history_ended:two_digit_year_range")
+                domain_left = True
+                break
             fl, date2, exp, why = updates.plan_update(R, vp, start, start_state, tdy, tries=8)
+            if two_digit_year and date2.year > 2098:
+                date2 = date
             date = max(date, date2) if exp is None else date2 if date2 >= date else date
             if exp is not None and date2 < date:
                 # keep dates non-decreasing: re-plan with the current date
@@ -234,6 +242,13 @@ def run_case(ctx, case):
             if any(pr[0].startswith("pep440-occurrence") for pr in problems):
                 raise harness.Skip("pep440-mismatch(C15)")
             proj = projects.advance(proj, after, new_state, a, plants)
+            amb = projects.prove_unambiguous(proj)
+            if amb:
+                # with the new version the configured patterns overlap each other's text (e.g. `{version}` = 66.10
+                # inside `since 2066.10`): the layout has left the property's domain, the history ends here
+                ctx.count("history_ended:layout_became_ambiguous")
+                domain_left = True
+                break
             s = harness.invoke(["show", "--no-fetch"], cwd=d, env=env)
             shown = s.stdout_value("Current Version: ")
             if s.exit_code != 0 or (shown != a and not (scope != "default" and kind in ("no-commit", "no-tag"))):
@@ -273,7 +288,7 @@ def run_case(ctx, case):
                     ctx.violation("other:newest_tag_is_not_the_new_version", f"newest tag in scope {newest!r}, announced {a!r}",
                                   case=case, observed=desc)
         # final probe: a further update is possible
-        if not pending_uncommitted and n_ok:
+        if not pending_uncommitted and n_ok and not domain_left:
             ok = False
             tried = []
             two_digit = any(n in names for n in ("YY", "0Y", "GG", "0G"))
